@@ -28,6 +28,7 @@ namespace verif
         if (pid == 0)
         {
             std::set_terminate(terminate_handler);
+            event_count() = 0;
             alarm(watchdog_s);
             body();
             _exit(0);
@@ -42,7 +43,7 @@ namespace verif
             Ev("died").s("how", sig == SIGALRM ? "timeout" : "signal").i("code", sig);
         }
         else
-            Ev("died").s("how", "exit").i("code", WEXITSTATUS(status));
+            Ev("died").s("how", WEXITSTATUS(status) == 96 ? "flood" : "exit").i("code", WEXITSTATUS(status));
         return false;
     }
 } // namespace verif
